@@ -21,8 +21,8 @@ RULE = ('T1 generated kernels of the transpilable subset (integer/real32/real64/
         'variables, named constants); features with a known open finding are confined to 1/16 slices each. Non-trivial = '
         'the original built and ran clean on all inputs and at least one translation was built and compared; distinct = '
         'hash of kernel text.')
-CASES = {'quick': 48, 'thorough': 720}
-MIN_NONTRIVIAL = {'quick': 24, 'thorough': 400}
+CASES = {'quick': 48, 'thorough': 640}
+MIN_NONTRIVIAL = {'quick': 24, 'thorough': 350}
 ANCHORS = ['loki/transformations/transpile/fortran_c.py', 'loki/transformations/transpile/fortran_iso_c_wrapper.py',
            'loki/backend/cgen.py']
 REQUIRED_REACH = ['generate_c_kernel', 'generate_iso_c_wrapper_routine', 'visit_Loop', 'map_array_subscript']
